@@ -28,6 +28,8 @@ type SolverStats struct {
 	QCV     int64
 	Errors  int64
 	Unknown int64
+	AbstractHits int64
+	Disagree     int64
 }
 
 var stats SolverStats
@@ -622,21 +624,25 @@ func (ss *SolverSet) close() {
 func (ss *SolverSet) feasible(asserts []*Term, timeoutMs int) (bool, bool) {
 	atomic.AddInt64(&stats.Queries, 1)
 	q := &Query{Asserts: asserts}
-	var r1, r2 string
-	var wg sync.WaitGroup
-	wg.Add(1)
-	go func() { defer wg.Done(); r2, _ = ss.z3.run(q, timeoutMs) }()
-	r1, _ = ss.z3n.run(q, timeoutMs)
-	if r1 == "sat" {
-		wg.Wait()
+	r1, _ := ss.z3n.run(q, timeoutMs)
+	switch r1 {
+	case "sat":
 		return true, true
-	}
-	wg.Wait()
-	if r1 == "unsat" && r2 == "unsat" {
+	case "unsat":
+		// pruning rule: unsat by z3 5.1.0 and no dissent (sat/error) from z3 4.8.12 within a short cap
+		r2, _ := ss.z3.run(q, 700)
+		if r2 == "sat" || r2 == "error" {
+			atomic.AddInt64(&stats.Disagree, 1)
+			return true, false
+		}
 		return false, true
 	}
-	if r2 == "sat" {
+	r2, _ := ss.z3.run(q, timeoutMs)
+	switch r2 {
+	case "sat":
 		return true, true
+	case "unsat":
+		return false, true
 	}
 	return true, false
 }
